@@ -4,7 +4,14 @@
  *       one line per defined opcode, read through isa_get_info:   OP <hex> <name> <n> <kind>...
  *       kinds: U8 U16 U32 I32 I64 F64.  (Python mutators of other checks parse this.)
  *
- *   isa_probe --codec [seed [random_per_opcode]]
+ *   isa_probe --codec [seed [random_per_opcode [encode-first|decode-first|interleaved]]]
+ *       ORDER (each invocation is a fresh process; the driver runs all three): the codec must not depend on hidden
+ *       state left behind by earlier calls.  encode-first = per cell encode, then decode (the natural test order);
+ *       decode-first = a complete decode-only pass (truncations, exact decode, trailing bytes, undefined bytes, random
+ *       operand bytes) before isa_encode has been called even once in the process - the situation of nano_vm, the
+ *       verifier and the disassembler - then an encode-only pass, then decode again; interleaved = shuffled opcode
+ *       order, per opcode a seeded choice of decode-before-encode or encode-before-decode.  The SUMMARY line proves the
+ *       cold pass (encodes_before_decode_pass=0).  FAIL classes of the cold passes carry the suffix @cold / @cold-op.
  *       exhaustive table: 256 opcode bytes x cartesian product of boundary patterns over the operand slots.
  *       For every cell: isa_encode into an exact-size malloc block == independently computed little-endian
  *       layout; isa_encode refuses every smaller buffer; isa_decode of the exact-size block gives back every
@@ -165,18 +172,22 @@ static int check_decoded(const char *cls, const Cell *c, const DecodedInstructio
 /* exact-size heap copy (ASan places the redzone right behind it) */
 static uint8_t *exact(const uint8_t *src, unsigned n) { uint8_t *b = malloc(n); if (n && !b) abort(); if (n) memcpy(b, src, n); return b; }
 
-static void codec_cell(const Cell *c) {
+/* every call of isa_encode goes through ENC so that the probe can PROVE that a decode pass ran in a process
+ * (or for an opcode) that has never encoded anything: hidden state shared by the two functions must not matter */
+static unsigned long n_encode_calls;
+static unsigned long enc_calls_by_op[256];
+static uint32_t ENC(const DecodedInstruction *ins, uint8_t *buf, size_t n) { n_encode_calls++; enc_calls_by_op[ins->opcode]++; return isa_encode(ins, buf, n); }
+
+/* ---- encode side of one cell ---- */
+static void enc_checks(const Cell *c) {
     uint8_t exp[40]; unsigned L = cell_bytes(c, exp);
     DecodedInstruction ins; cell_to_instr(c, &ins);
-    n_tuples++;
 
     /* encode into an exact-size block */
     uint8_t *eb = malloc(L); memset(eb, 0xCC, L);
-    uint32_t w = isa_encode(&ins, eb, L); n_cells++;
-    int enc_ok = 0;
+    uint32_t w = ENC(&ins, eb, L); n_cells++;
     if (w != L) fail("enc-len", "%s: isa_encode returned %u, want %u", cell_str(c), w, L);
     else if (memcmp(eb, exp, L) != 0) fail("enc-bytes", "%s: encoded %s, want %s", cell_str(c), hex(eb, L), hex(exp, L));
-    else enc_ok = 1;
     /* decode(encode(i)) == i on whatever encode produced */
     if (w > 0 && w <= L) {
         DecodedInstruction d; memset(&d, 0x5A, sizeof d);
@@ -187,12 +198,11 @@ static void codec_cell(const Cell *c) {
         free(cb);
     }
     free(eb);
-    (void)enc_ok;
 
     /* every smaller buffer must be refused and left alone (exact-size block: an attempt to write trips ASan) */
     for (unsigned n = 0; n < L; n++) {
         uint8_t *sb = malloc(n); if (n) memset(sb, 0xCC, n);
-        uint32_t r = isa_encode(&ins, sb, n); n_cells++; n_truncs++;
+        uint32_t r = ENC(&ins, sb, n); n_cells++; n_truncs++;
         if (r != 0) fail("enc-small", "%s: isa_encode accepted a %u-byte buffer (needs %u), returned %u", cell_str(c), n, L, r);
         else for (unsigned k = 0; k < n; k++) if (sb[k] != 0xCC) { fail("enc-small", "%s: refused %u-byte buffer was written at %u", cell_str(c), n, k); break; }
         free(sb);
@@ -200,32 +210,40 @@ static void codec_cell(const Cell *c) {
     /* a larger buffer is not written beyond the instruction */
     {
         uint8_t big[ISA_MAX_INSTRUCTION_SIZE + 8]; memset(big, 0xCC, sizeof big);
-        uint32_t r = isa_encode(&ins, big, ISA_MAX_INSTRUCTION_SIZE); n_cells++;
+        uint32_t r = ENC(&ins, big, ISA_MAX_INSTRUCTION_SIZE); n_cells++;
         if (r != L || memcmp(big, exp, L) != 0) fail("enc-big", "%s: with a 32-byte buffer returned %u bytes %s", cell_str(c), r, hex(big, L));
         for (unsigned k = L; k < sizeof big; k++) if (big[k] != 0xCC) { fail("enc-overrun", "%s: byte %u behind the instruction was written", cell_str(c), k); break; }
     }
+}
 
+/* ---- decode side of one cell: uses only the independently built bytes.  reenc=0: no isa_encode call at all ---- */
+static int g_reenc = 1;
+static const char *g_phase = "";      /* appended to the FAIL class so that the order that exposed a failure is visible */
+static const char *cls(const char *base) { static char b[4][64]; static int w; char *s = b[w++ & 3]; snprintf(s, 64, "%s%s", base, g_phase); return s; }
+
+static void dec_checks(const Cell *c) {
+    uint8_t exp[40]; unsigned L = cell_bytes(c, exp);
+    /* every truncation must be refused (first: nothing has touched this opcode yet in a decode-first pass) */
+    for (unsigned n = 0; n < L; n++) {
+        uint8_t *cb = exact(exp, n);
+        DecodedInstruction d; memset(&d, 0x5A, sizeof d);
+        uint32_t r = isa_decode(cb, n, &d); n_cells++; n_truncs++;
+        if (r != 0) fail(cls("dec-trunc"), "%s: truncated instruction decoded: %u of %u bytes given, returned %u", cell_str(c), n, L, r);
+        free(cb);
+    }
     /* decode the independently built bytes from an exact-size block */
     {
         uint8_t *cb = exact(exp, L);
         DecodedInstruction d; memset(&d, 0x5A, sizeof d);
         uint32_t r = isa_decode(cb, L, &d); n_cells++;
-        if (r != L) fail("dec-len", "%s: isa_decode(%s) returned %u, want %u", cell_str(c), hex(exp, L), r, L);
-        else if (check_decoded("dec-value", c, &d, L) == 0) {
+        if (r != L) fail(cls("dec-len"), "%s: isa_decode(%s) returned %u, want %u", cell_str(c), hex(exp, L), r, L);
+        else if (check_decoded(cls("dec-value"), c, &d, L) == 0 && g_reenc) {
             /* encode(decode(b)) == b */
             uint8_t *rb = malloc(L); memset(rb, 0xCC, L);
-            uint32_t w2 = isa_encode(&d, rb, L); n_cells++;
+            uint32_t w2 = ENC(&d, rb, L); n_cells++;
             if (w2 != L || memcmp(rb, exp, L) != 0) fail("reenc", "%s: encode(decode(%s)) = %u bytes %s", cell_str(c), hex(exp, L), w2, hex(rb, w2 <= L ? w2 : L));
             free(rb);
         }
-        free(cb);
-    }
-    /* every truncation must be refused */
-    for (unsigned n = 0; n < L; n++) {
-        uint8_t *cb = exact(exp, n);
-        DecodedInstruction d; memset(&d, 0x5A, sizeof d);
-        uint32_t r = isa_decode(cb, n, &d); n_cells++; n_truncs++;
-        if (r != 0) fail("dec-trunc", "%s: %u of %u bytes decoded (returned %u)", cell_str(c), n, L, r);
         free(cb);
     }
     /* trailing bytes are not part of the instruction */
@@ -234,11 +252,23 @@ static void codec_cell(const Cell *c) {
         uint8_t *cb = exact(tb, L + 5);
         DecodedInstruction d; memset(&d, 0x5A, sizeof d);
         uint32_t r = isa_decode(cb, L + 5, &d); n_cells++;
-        if (r != L) fail("dec-trail", "%s: with 5 trailing bytes returned %u, want %u", cell_str(c), r, L);
-        else check_decoded("dec-trail", c, &d, L);
+        if (r != L) fail(cls("dec-trail"), "%s: with 5 trailing bytes returned %u, want %u", cell_str(c), r, L);
+        else check_decoded(cls("dec-trail"), c, &d, L);
+        free(cb);
+    }
+    /* truncations once more, now that this opcode has been decoded completely (state left behind by a full decode) */
+    for (unsigned n = 0; n < L; n++) {
+        uint8_t *cb = exact(exp, n);
+        DecodedInstruction d; memset(&d, 0x5A, sizeof d);
+        uint32_t r = isa_decode(cb, n, &d); n_cells++; n_truncs++;
+        if (r != 0) fail(cls("dec-trunc2"), "%s: truncated instruction decoded after a complete decode: %u of %u bytes, returned %u", cell_str(c), n, L, r);
         free(cb);
     }
 }
+
+static void count_cell(const Cell *c) { (void)c; n_tuples++; }
+static void enc_then_dec(const Cell *c) { enc_checks(c); dec_checks(c); }
+static void dec_then_enc(const Cell *c) { dec_checks(c); enc_checks(c); dec_checks(c); }
 
 /* ---- text form of one cell ---- */
 static void text_cell(const Cell *c) {
@@ -292,6 +322,73 @@ static int table_entry_ok(int op, const InstructionInfo *info) {
     return ok;
 }
 
+static void undef_dec(int op) {
+    /* decode must refuse: alone, and followed by 1..31 bytes of several fillings */
+    static const uint8_t fills[] = {0x00, 0xFF, 0x01, 0x3D /* RET */};
+    for (unsigned n = 1; n <= 32; n++) for (unsigned f = 0; f < sizeof fills + 1; f++) {
+        uint8_t b[32]; b[0] = (uint8_t)op;
+        for (unsigned k = 1; k < n; k++) b[k] = f < sizeof fills ? fills[f] : (uint8_t)rnd64();
+        uint8_t *cb = exact(b, n);
+        DecodedInstruction d; memset(&d, 0x5A, sizeof d);
+        uint32_t r = isa_decode(cb, n, &d); n_cells++; n_undef_cells++;
+        if (r != 0) fail(cls("undef-dec"), "op=0x%02x: undefined opcode byte decoded from %u bytes (returned %u)", op, n, r);
+        free(cb);
+        if (n == 1) break;
+    }
+}
+
+static void undef_enc(int op) {
+    /* encode must refuse whatever the operand fields say, and must not touch the buffer */
+    for (int cnt = 0; cnt <= MAX_OPERANDS; cnt++) for (int ty = 0; ty <= 6; ty++) {
+        DecodedInstruction ins; memset(&ins, 0, sizeof ins);
+        ins.opcode = (uint8_t)op; ins.operand_count = (uint8_t)cnt;
+        for (int i = 0; i < MAX_OPERANDS; i++) { ins.operand_types[i] = (OperandType)ty; ins.operands[i].i64 = (int64_t)rnd64(); }
+        uint8_t *eb = malloc(ISA_MAX_INSTRUCTION_SIZE); memset(eb, 0xCC, ISA_MAX_INSTRUCTION_SIZE);
+        uint32_t r = ENC(&ins, eb, ISA_MAX_INSTRUCTION_SIZE); n_cells++; n_undef_cells++;
+        if (r != 0) fail("undef-enc", "op=0x%02x: undefined opcode byte encoded (returned %u)", op, r);
+        else for (unsigned k = 0; k < ISA_MAX_INSTRUCTION_SIZE; k++) if (eb[k] != 0xCC) { fail("undef-enc", "op=0x%02x: refused, but buffer written at %u", op, k); break; }
+        free(eb);
+    }
+}
+
+/* random operand bytes: decode, compare with an independent little-endian read, refuse a random truncation,
+ * re-encode (only when g_reenc) */
+static void rand_cells(int op, const InstructionInfo *info, unsigned long nrand) {
+    Cell c; memset(&c, 0, sizeof c); c.op = (uint8_t)op; c.n = info->operand_count;
+    for (int i = 0; i < c.n; i++) c.kind[i] = kind_of(info->operands[i]);
+    unsigned L = cell_len(&c);
+    unsigned long reps = (c.n == 0) ? 1 : nrand;
+    for (unsigned long t = 0; t < reps; t++) {
+        uint8_t b[40]; b[0] = (uint8_t)op; unsigned p = 1;
+        for (int i = 0; i < c.n; i++) {
+            uint64_t v = rnd64();
+            if (c.kind[i] == K_F64 && (t & 3) == 0) v |= 0x7FF0000000000000ull;       /* a quarter are NaN/inf images */
+            if (KSIZE[c.kind[i]] < 8) v &= (1ull << (8 * KSIZE[c.kind[i]])) - 1;
+            c.val[i] = v;
+            for (unsigned k = 0; k < KSIZE[c.kind[i]]; k++) b[p++] = (uint8_t)(v >> (8 * k));
+        }
+        if (L > 1) {
+            unsigned n = (unsigned)(rnd64() % L);
+            uint8_t *tb = exact(b, n);
+            DecodedInstruction d; memset(&d, 0x5A, sizeof d);
+            uint32_t r = isa_decode(tb, n, &d); n_cells++; n_truncs++;
+            if (r != 0) fail(cls("rand-trunc"), "%s: truncated instruction decoded: %u of %u bytes given, returned %u", cell_str(&c), n, L, r);
+            free(tb);
+        }
+        uint8_t *cb = exact(b, L);
+        DecodedInstruction d; memset(&d, 0x5A, sizeof d);
+        uint32_t r = isa_decode(cb, L, &d); n_cells++; n_random++;
+        if (r != L) fail(cls("rand-dec"), "%s: isa_decode(%s) returned %u, want %u", cell_str(&c), hex(b, L), r, L);
+        else if (check_decoded(cls("rand-dec"), &c, &d, L) == 0 && g_reenc) {
+            uint8_t *rb = malloc(L); memset(rb, 0xCC, L);
+            uint32_t w = ENC(&d, rb, L); n_cells++;
+            if (w != L || memcmp(rb, b, L) != 0) fail("rand-reenc", "%s: encode(decode(%s)) = %u bytes %s", cell_str(&c), hex(b, L), w, hex(rb, w <= L ? w : L));
+            free(rb);
+        }
+        free(cb);
+    }
+}
+
 int main(int argc, char **argv) {
     if (argc >= 2 && strcmp(argv[1], "--dump") == 0) {
         for (int op = 0; op < 256; op++) {
@@ -304,77 +401,105 @@ int main(int argc, char **argv) {
         return 0;
     }
     int text = (argc >= 2 && strcmp(argv[1], "--text") == 0);
-    if (!(argc >= 2 && (strcmp(argv[1], "--codec") == 0 || text))) { fprintf(stderr, "usage: isa_probe --dump | --codec [seed [random_per_opcode]] | --text\n"); return 2; }
+    if (!(argc >= 2 && (strcmp(argv[1], "--codec") == 0 || text))) { fprintf(stderr, "usage: isa_probe --dump | --codec [seed [random_per_opcode [encode-first|decode-first|interleaved]]] | --text\n"); return 2; }
     unsigned long seed = argc >= 3 ? strtoul(argv[2], NULL, 10) : 1;
     unsigned long nrand = argc >= 4 ? strtoul(argv[3], NULL, 10) : 500;
+    const char *order = argc >= 5 ? argv[4] : "encode-first";
+    int ord = strcmp(order, "decode-first") == 0 ? 1 : strcmp(order, "interleaved") == 0 ? 2 : strcmp(order, "encode-first") == 0 ? 0 : -1;
+    if (ord < 0) { fprintf(stderr, "unknown order %s\n", order); return 2; }
     rng_state ^= seed * 0x9E3779B97F4A7C15ull; for (int i = 0; i < 8; i++) rnd64();
 
-    for (int op = 0; op < 256; op++) {
-        const InstructionInfo *info = isa_get_info((uint8_t)op);
-        if (!info) {
-            n_undefined++;
-            if (text) continue;
-            /* decode must refuse: alone, and followed by 1..31 bytes of several fillings */
-            static const uint8_t fills[] = {0x00, 0xFF, 0x01, 0x3D /* RET */};
-            for (unsigned n = 1; n <= 32; n++) for (unsigned f = 0; f < sizeof fills + 1; f++) {
-                uint8_t b[32]; b[0] = (uint8_t)op;
-                for (unsigned k = 1; k < n; k++) b[k] = f < sizeof fills ? fills[f] : (uint8_t)rnd64();
-                uint8_t *cb = exact(b, n);
-                DecodedInstruction d; memset(&d, 0x5A, sizeof d);
-                uint32_t r = isa_decode(cb, n, &d); n_cells++; n_undef_cells++;
-                if (r != 0) fail("undef-dec", "op=0x%02x: undefined opcode byte decoded from %u bytes (returned %u)", op, n, r);
-                free(cb);
-                if (n == 1) break;
-            }
-            /* encode must refuse whatever the operand fields say, and must not touch the buffer */
-            for (int cnt = 0; cnt <= MAX_OPERANDS; cnt++) for (int ty = 0; ty <= 6; ty++) {
-                DecodedInstruction ins; memset(&ins, 0, sizeof ins);
-                ins.opcode = (uint8_t)op; ins.operand_count = (uint8_t)cnt;
-                for (int i = 0; i < MAX_OPERANDS; i++) { ins.operand_types[i] = (OperandType)ty; ins.operands[i].i64 = (int64_t)rnd64(); }
-                uint8_t *eb = malloc(ISA_MAX_INSTRUCTION_SIZE); memset(eb, 0xCC, ISA_MAX_INSTRUCTION_SIZE);
-                uint32_t r = isa_encode(&ins, eb, ISA_MAX_INSTRUCTION_SIZE); n_cells++; n_undef_cells++;
-                if (r != 0) fail("undef-enc", "op=0x%02x: undefined opcode byte encoded (returned %u)", op, r);
-                else for (unsigned k = 0; k < ISA_MAX_INSTRUCTION_SIZE; k++) if (eb[k] != 0xCC) { fail("undef-enc", "op=0x%02x: refused, but buffer written at %u", op, k); break; }
-                free(eb);
-            }
-            continue;
+    if (text) {
+        for (int op = 0; op < 256; op++) {
+            const InstructionInfo *info = isa_get_info((uint8_t)op);
+            if (!info) { n_undefined++; continue; }
+            n_defined++;
+            if (table_entry_ok(op, info)) product((uint8_t)op, info, text_cell);
         }
-        n_defined++;
-        if (!table_entry_ok(op, info)) continue;
-        product((uint8_t)op, info, text ? text_cell : codec_cell);
-        if (text) continue;
-        /* random operand bytes: decode, compare with an independent little-endian read, re-encode */
-        Cell c; memset(&c, 0, sizeof c); c.op = (uint8_t)op; c.n = info->operand_count;
-        for (int i = 0; i < c.n; i++) c.kind[i] = kind_of(info->operands[i]);
-        unsigned L = cell_len(&c);
-        unsigned long reps = (c.n == 0) ? 1 : nrand;
-        for (unsigned long t = 0; t < reps; t++) {
-            uint8_t b[40]; b[0] = (uint8_t)op; unsigned p = 1;
-            for (int i = 0; i < c.n; i++) {
-                uint64_t v = rnd64();
-                if (c.kind[i] == K_F64 && (t & 3) == 0) v |= 0x7FF0000000000000ull;       /* a quarter are NaN/inf images */
-                if (KSIZE[c.kind[i]] < 8) v &= (1ull << (8 * KSIZE[c.kind[i]])) - 1;
-                c.val[i] = v;
-                for (unsigned k = 0; k < KSIZE[c.kind[i]]; k++) b[p++] = (uint8_t)(v >> (8 * k));
-            }
-            uint8_t *cb = exact(b, L);
-            DecodedInstruction d; memset(&d, 0x5A, sizeof d);
-            uint32_t r = isa_decode(cb, L, &d); n_cells++; n_random++;
-            if (r != L) fail("rand-dec", "%s: isa_decode(%s) returned %u, want %u", cell_str(&c), hex(b, L), r, L);
-            else if (check_decoded("rand-dec", &c, &d, L) == 0) {
-                uint8_t *rb = malloc(L); memset(rb, 0xCC, L);
-                uint32_t w = isa_encode(&d, rb, L); n_cells++;
-                if (w != L || memcmp(rb, b, L) != 0) fail("rand-reenc", "%s: encode(decode(%s)) = %u bytes %s", cell_str(&c), hex(b, L), w, hex(rb, w <= L ? w : L));
-                free(rb);
-            }
-            free(cb);
-        }
-    }
-    if (text)
         printf("SUMMARY mode=text cells=%lu defined=%d undefined=%d text_cells=%lu skipped=%lu fails=%lu\n",
                n_cells, n_defined, n_undefined, n_text, n_text_skipped, n_fail);
-    else
-        printf("SUMMARY mode=codec cells=%lu defined=%d undefined=%d tuples=%lu truncs=%lu random=%lu undef_cells=%lu fails=%lu\n",
-               n_cells, n_defined, n_undefined, n_tuples, n_truncs, n_random, n_undef_cells, n_fail);
+        return 0;
+    }
+
+    /* opcode visiting order: ascending for encode-first, seeded shuffle otherwise (state left by one opcode's
+     * calls must not matter for another opcode) */
+    int ops[256]; for (int i = 0; i < 256; i++) ops[i] = i;
+    if (ord != 0) for (int i = 255; i > 0; i--) { int j = (int)(rnd64() % (unsigned)(i + 1)); int t = ops[i]; ops[i] = ops[j]; ops[j] = t; }
+    int ok_entry[256] = {0};
+    for (int op = 0; op < 256; op++) {
+        const InstructionInfo *info = isa_get_info((uint8_t)op);
+        if (!info) { n_undefined++; continue; }
+        n_defined++;
+        ok_entry[op] = table_entry_ok(op, info);
+        if (ok_entry[op]) product((uint8_t)op, info, count_cell);
+    }
+    unsigned long enc_before_decode_pass = 0, cold_decode_ops = 0;
+
+    if (ord == 0) {
+        /* ---- the natural test order: per opcode, per cell: encode, then decode ---- */
+        for (int k = 0; k < 256; k++) {
+            int op = ops[k]; const InstructionInfo *info = isa_get_info((uint8_t)op);
+            if (!info) { undef_dec(op); undef_enc(op); continue; }
+            if (!ok_entry[op]) continue;
+            g_reenc = 1; g_phase = "";
+            product((uint8_t)op, info, enc_then_dec);
+            rand_cells(op, info, nrand);
+        }
+    } else if (ord == 1) {
+        /* ---- pass 1: decode ONLY, in a process that has never called isa_encode (the situation of nano_vm,
+         *      the verifier and the disassembler): truncations, exact decode, trailing bytes, undefined bytes,
+         *      random operand bytes - all from independently built byte strings ---- */
+        g_reenc = 0; g_phase = "@cold";
+        for (int k = 0; k < 256; k++) {
+            int op = ops[k]; const InstructionInfo *info = isa_get_info((uint8_t)op);
+            if (!info) { undef_dec(op); continue; }
+            if (!ok_entry[op]) continue;
+            product((uint8_t)op, info, dec_checks);
+            rand_cells(op, info, nrand);
+            cold_decode_ops++;
+        }
+        enc_before_decode_pass = n_encode_calls;
+        /* ---- pass 2: encode only (every opcode, every cell), undefined bytes refused by encode ---- */
+        g_phase = "";
+        for (int k = 255; k >= 0; k--) {
+            int op = ops[k]; const InstructionInfo *info = isa_get_info((uint8_t)op);
+            if (!info) { undef_enc(op); continue; }
+            if (ok_entry[op]) product((uint8_t)op, info, enc_checks);
+        }
+        /* ---- pass 3: decode again, now with re-encoding, after everything has been encoded ---- */
+        g_reenc = 1; g_phase = "@warm";
+        for (int k = 0; k < 256; k++) {
+            int op = ops[k]; const InstructionInfo *info = isa_get_info((uint8_t)op);
+            if (!info) { undef_dec(op); continue; }
+            if (!ok_entry[op]) continue;
+            product((uint8_t)op, info, dec_checks);
+            rand_cells(op, info, nrand / 4 + 1);
+        }
+    } else {
+        /* ---- interleaved: per opcode a seeded choice of decode-before-encode or encode-before-decode; the opcodes
+         *      themselves come in shuffled order, undefined bytes in between ---- */
+        for (int k = 0; k < 256; k++) {
+            int op = ops[k]; const InstructionInfo *info = isa_get_info((uint8_t)op);
+            if (!info) { if (rnd64() & 1) { undef_dec(op); undef_enc(op); } else { undef_enc(op); undef_dec(op); } continue; }
+            if (!ok_entry[op]) continue;
+            if (rnd64() & 1) {
+                unsigned long before = enc_calls_by_op[op];
+                g_reenc = 0; g_phase = "@cold-op";
+                product((uint8_t)op, info, dec_checks);
+                rand_cells(op, info, nrand / 2 + 1);
+                if (enc_calls_by_op[op] == before) cold_decode_ops++;
+                g_reenc = 1; g_phase = "";
+                product((uint8_t)op, info, dec_then_enc);
+            } else {
+                g_reenc = 1; g_phase = "";
+                product((uint8_t)op, info, enc_then_dec);
+                rand_cells(op, info, nrand / 2 + 1);
+            }
+        }
+    }
+    printf("SUMMARY mode=codec order=%s cells=%lu defined=%d undefined=%d tuples=%lu truncs=%lu random=%lu undef_cells=%lu "
+           "encodes_before_decode_pass=%lu cold_decode_opcodes=%lu fails=%lu\n",
+           order, n_cells, n_defined, n_undefined, n_tuples, n_truncs, n_random, n_undef_cells,
+           enc_before_decode_pass, cold_decode_ops, n_fail);
     return 0;
 }
